@@ -112,6 +112,16 @@ def place(rng, centre, kind, rmin=0.2, rmax=2.5):
     r = math.exp(rng.uniform(math.log(rmin), math.log(rmax)))
     if kind == "zaxis":    # on the z axis through the ECP: polar cosines are +-1 up to rounding, azimuths undefined
         return [centre[0], centre[1], centre[2] + rng.choice([-1, 1]) * math.exp(rng.uniform(math.log(rmin), math.log(rmax)))]
+    if kind in ("nearz", "nearaxis"):
+        # ALMOST on a coordinate axis through the ECP (1e-7 .. 1e-3 rad off): where a shortcut for "on the axis" with a tolerance
+        # fires although the transverse components still matter
+        ax = 2 if kind == "nearz" else rng.randrange(3)
+        eps = 10 ** rng.uniform(-7, -3)
+        ph = rng.uniform(0, 2 * math.pi)
+        d = [eps * math.cos(ph), eps * math.sin(ph), eps * math.cos(ph)]
+        d[ax] = rng.choice([-1.0, 1.0])
+        d[(ax + 1) % 3], d[(ax + 2) % 3] = eps * math.cos(ph), eps * math.sin(ph)
+        return [centre[i] + r * d[i] for i in range(3)]
     if kind == "axis":
         ax = rng.randrange(3); s = rng.choice([-1, 1])
         d = [0.0, 0.0, 0.0]; d[ax] = s
